@@ -7,11 +7,13 @@ ROOT = os.path.dirname(os.path.dirname(os.path.abspath(__file__)))
 
 
 def write(prop, tier, seed, level, coverage, wall_s, violations, assumptions):
-    os.makedirs(os.path.join(ROOT, "evidence"), exist_ok=True)
+    edir = os.path.join(os.environ["VERIF_OUT_DIR"], "evidence") if os.environ.get("VERIF_OUT_DIR") \
+        else os.path.join(ROOT, "evidence")
+    os.makedirs(edir, exist_ok=True)
     ev = {"property_id": prop, "tier": tier, "seed": int(seed), "level": level,
           "coverage": coverage, "assumptions": assumptions, "wall_s": round(float(wall_s), 2),
           "violations": int(violations)}
-    p = os.path.join(ROOT, "evidence", f"{prop}.json")
+    p = os.path.join(edir, f"{prop}.json")
     with open(p + ".tmp", "w") as f:
         json.dump(ev, f, indent=1, sort_keys=False)
     os.replace(p + ".tmp", p)
